@@ -36,7 +36,8 @@ def hash_apply(it, st, algo, vals):
         c = z3.simplify(c)
         if z3.is_true(c):
             continue
-        st.pc.append(c)
+        # an instance of the (global) injectivity axiom of the ideal hash: valid on every path
+        it.ctx.axioms.append(c)
     st.heap[key] = apps + ((n, tuple(vals), out),)
     it.ctx.assumptions.add(f'{algo} is an ideal hash: an uninterpreted function of its input bytes with collision freedom (different inputs give different digests)')
     return res
@@ -206,8 +207,6 @@ def s_contains(it, st, args, fname):
 @I.reg('bytes.Equal')
 def s_equal(it, st, args, fname):
     a, b = args
-    if isinstance(a, Slice) and isinstance(b, Slice) and (is_sym(a.len) or is_sym(b.len)):
-        raise Unsupported('bytes.Equal with symbolic lengths')
     x, y = _sbytes(it, st, a, 'a'), _sbytes(it, st, b, 'b')
     if len(x) != len(y):
         return ret(st, False)
